@@ -15,6 +15,11 @@ CHECKS = {
         technique="bounded-exhaustive enumeration (small-scope) of every (root, name) over an adversarial segment alphabet + all router captures; containment oracle on the returned string",
         text="Every name of the stated grammar (prefix x <=3/5 segments over 13 adversarial segments x both separators x 7 roots, ~1e6 quick / ~4e7 thorough) and every :path* capture of the real Router is evaluated; exhaustive within that grammar, nothing sampled. Right level because the function is pure and its input space is a small grammar.",
         note="POSIX os.path; names outside the alphabet (other unicode, longer paths) are not covered"),
+    "C04": dict(
+        engine="mcx", category="model_checking", design="5/C04",
+        technique="stateless deviation-bounded exploration (<=2 network deviations: drop/dup/delay/replay of any recorded datagram) of the real client+server stack under a virtual clock; reference-model monitor (multiset of sent payloads, set of accepted datagrams)",
+        text="All executions with <=2 deviations over 60 (quick) / ~250 (thorough) program configurations (direction x retry mode x single/fragmented x macro step moving the 32-datagram or 256-message window x ack blackout) are run on the implementation; every delivery is checked against the multiset sent and every byte-identical copy of an accepted datagram must be dropped whole (full state snapshot compare).",
+        note="payload contents from a marker family; <=2 independent network faults per execution (macro faults make the window-moving histories reachable); crypto primitives trusted"),
 }
 
 NOT_YET = {
